@@ -45,17 +45,18 @@ func readJSON(path string, v interface{}) error {
 }
 
 type checkRun struct {
-	g           *Global
-	prop        string
-	tier        string
-	seed        int64
-	spec        PropSpec
-	results     []*FuncResult
-	obligs      []*Obligation
-	scratch     string
-	vdir        string
-	repo        string
-	oracleCache map[string]oracleResult
+	g              *Global
+	prop           string
+	tier           string
+	seed           int64
+	spec           PropSpec
+	results        []*FuncResult
+	obligs         []*Obligation
+	scratch        string
+	vdir           string
+	repo           string
+	oracleCache    map[string]oracleResult
+	boundedResults []map[string]string
 }
 
 func cmdCheck(args []string) {
@@ -107,6 +108,16 @@ func runCheck(repo, vdir, prop, tier string, seed int64, writeEvidence bool, qui
 		res := g.verifyFunc(k)
 		cr.results = append(cr.results, res)
 		all = append(all, res.Obligations...)
+	}
+	// obligations recorded as unclaimed when the lock was written are known not to discharge: a short limit in the quick tier
+	if tier == "quick" {
+		for _, o := range all {
+			for _, n := range lock["unclaimed:"+prop] {
+				if o.Name == n {
+					o.TimeoutOverride = 3 * time.Second
+				}
+			}
+		}
 	}
 	dischargeAll(all, scratch, timeout)
 	cr.obligs = all
@@ -216,6 +227,35 @@ func runCheck(repo, vdir, prop, tier string, seed int64, writeEvidence bool, qui
 		if o.Vacuity && o.Status == "vacuous" {
 			report(o.Name, o, "preconditions are unsatisfiable (vacuous contract)")
 		}
+	}
+	// bounded stand-ins: functions outside the verifier's reach are exercised on the real code by an oracle with a stated
+	// bound; never counted as proved, but a failing input is a violation with a replay
+	for _, b := range spec.Bounded {
+		budget := 8 * time.Second
+		if tier == "thorough" {
+			budget = 60 * time.Second
+		}
+		r := runOracle(repo, vdir, b.Name, "", budget, seed)
+		res := map[string]string{"oracle": b.Name, "what": b.What, "bound": b.Bound, "label": "bounded (not counted as proved)"}
+		if r.Found {
+			violations++
+			path := filepath.Join(vdir, "replay", sanitize(prop+"_bounded_"+b.Name)+".json")
+			rep := map[string]interface{}{"property": prop, "obligation": "bounded:" + b.Name, "oracle": b.Name, "reason": "bounded check on the real code found a failing input", "failing_input": json.RawMessage(r.Input), "observed": r.Detail, "replay_cmd": "bin/gfverify replay " + path}
+			bb, _ := json.MarshalIndent(rep, "", " ")
+			os.WriteFile(path, bb, 0o644)
+			violationLines = append(violationLines, fmt.Sprintf("VIOLATION property=%s replay=%s", prop, path))
+			res["result"] = "FAILED: " + r.Detail
+		} else {
+			res["result"] = r.Detail
+			if strings.HasPrefix(r.Detail, "oracle did not build") || r.Detail == "no failing input found" {
+				// the oracle could not run to completion (changed signatures, build failure): say so, do not pretend coverage
+				res["result"] = "NOT RUN TO COMPLETION: " + r.Detail
+			}
+		}
+		if !quiet {
+			fmt.Printf("  bounded %s: %s\n", b.Name, res["result"])
+		}
+		cr.boundedResults = append(cr.boundedResults, res)
 	}
 	if len(all) == 0 {
 		fmt.Fprintln(os.Stderr, "engine error: no obligations generated for", prop)
@@ -397,7 +437,7 @@ func (cr *checkRun) writeEvidence(locked map[string]bool, violations int, known 
 			"functions_under_contract": funcs,
 			"per_backend":              perBackend,
 			"solver_time_s":            float64(solverMs) / 1000.0,
-			"bounded":                  cr.spec.Bounded,
+			"bounded":                  cr.boundedResults,
 			"outside_subset":           outside,
 			"unlocked_undecided":       unlocked,
 			"known_findings":           known,
